@@ -73,10 +73,12 @@ __get_d_equiv(dt_dow_t dow, int b)
 			b += b != 0;
 		}
 	}
-	/* 384 == 4 mod 5 and 384 == 6 mod 7 */
-	u5 = (dow + 384 + b) % 5;
+	/* 384 == 4 mod 5 and 384 == 6 mod 7,
+	 * dt_dow_t is an unsigned type: keep the sums signed, and mind
+	 * that C's remainder is negative for negative operands */
+	u5 = (((int)dow + 384 + b) % 5 + 5) % 5;
 	b = b / 5 * 7 + b % 5;
-	u7 = (dow + 384 + b) % 7;
+	u7 = (((int)dow + 384 + b) % 7 + 7) % 7;
 
 	/* u5 is the day we want to be on, Mon=0
 	 * u7 is the day we land on, Mon=0 */
